@@ -22,7 +22,9 @@ RULE = (
     "out-degree<=2, plus 50k random graphs of 5-12 nodes); on each graph compute_scc, find_head, "
     "is_reachable_dfs (all ordered pairs incl. the external name), find_headers_and_entries and "
     "find_exiting_and_exits (all non-empty subsets for n<=4, random beyond), _doms/_post_doms/"
-    "_imm_doms are called under the M-query contracts (brute-force references). in-pipeline: the "
+    "_imm_doms are called under the M-query contracts (brute-force references), then one block is "
+    "removed and re-added with other targets through the public primitives and the queries are "
+    "asked again on the same object. in-pipeline: the "
     "same contracts on every query call made while restructuring the graph classes of C01. "
     "distinct = canonical hash of the graph; non-trivial = the graph has at least one edge and "
     "at least one contract compared a non-empty answer"
@@ -126,6 +128,40 @@ def exercise(gd, acc, rng=None, all_subsets=True):
             T._imm_doms(d)
         except ValueError:
             ctx.hit("direct.imm_doms_not_a_tree_raised")
+    # history on the same object: edit the graph through the public primitives and
+    # ask again (an answer remembered from before the edit would be stale)
+    import random as _r
+    from numba_scfg.core.datastructures.basic_block import BasicBlock
+
+    hr = rng or _r.Random(core.graph_hash(gd))
+    if len(names) >= 2:
+        victim = hr.choice(names)
+        scfg.remove_blocks({victim})
+        left = [n for n in names if n != victim]
+        for a in left:
+            for b in names + ext:
+                scfg.is_reachable_dfs(a, b)
+        scfg.compute_scc()
+        scfg.find_exiting_and_exits(set(left[:1]))
+        try:
+            scfg.find_headers_and_entries(set(left[:1]))
+        except AssertionError:
+            pass
+        scfg.add_block(BasicBlock(name=victim, _jump_targets=tuple(hr.sample(names, 1))))
+        for a in names:
+            for b in names:
+                scfg.is_reachable_dfs(a, b)
+        scfg.compute_scc()
+        try:
+            scfg.find_head()
+        except AssertionError:
+            pass
+        for f in (T._doms, T._post_doms):
+            try:
+                f(scfg)
+            except RuntimeError:
+                pass
+        ctx.hit("direct.requery_after_edit")
     nontrivial = any(gd.values()) and sum(
         v for k, v in ctx.counters.items() if k.startswith("M-query.")) > 0
     case = {"kind": "digraph", "g": gd}
